@@ -19,15 +19,15 @@ work=$(mktemp -d /tmp/gocv-bounded.XXXXXX); trap 'rm -rf "$work"' EXIT
   echo '}}'
 } > $work/overlay.json
 if [ "$tier" = thorough ]; then
-  export VERIF_BOUNDED_COMPLETE_SYMS=30 VERIF_BOUNDED_INCOMPLETE_SYMS=6 VERIF_BOUNDED_RANDOM=3000000
+  export VERIF_BOUNDED_COMPLETE_SYMS=30 VERIF_BOUNDED_INCOMPLETE_SYMS=6 VERIF_BOUNDED_RANDOM=3000000 VERIF_BOUNDED_HEADERS=150000 VERIF_BOUNDED_PATTERNS=600
   to=1500s
 else
-  export VERIF_BOUNDED_COMPLETE_SYMS=${VERIF_BOUNDED_COMPLETE_SYMS:-30} VERIF_BOUNDED_INCOMPLETE_SYMS=${VERIF_BOUNDED_INCOMPLETE_SYMS:-4} VERIF_BOUNDED_RANDOM=${VERIF_BOUNDED_RANDOM:-100000}
+  export VERIF_BOUNDED_COMPLETE_SYMS=${VERIF_BOUNDED_COMPLETE_SYMS:-30} VERIF_BOUNDED_INCOMPLETE_SYMS=${VERIF_BOUNDED_INCOMPLETE_SYMS:-4} VERIF_BOUNDED_RANDOM=${VERIF_BOUNDED_RANDOM:-100000} VERIF_BOUNDED_HEADERS=${VERIF_BOUNDED_HEADERS:-10000} VERIF_BOUNDED_PATTERNS=${VERIF_BOUNDED_PATTERNS:-400}
   to=300s
 fi
 out=$work/out.txt
 s=$(date +%s.%N)
-(cd $repo && go test -overlay $work/overlay.json -vet=off -count=1 -timeout $to -run 'TestBounded(DistTable|ClcTable)$' -v ./compress/flate) > $out 2>&1
+(cd $repo && go test -overlay $work/overlay.json -vet=off -count=1 -timeout $to -run 'TestBounded(DistTable|ClcTable|HeaderTables)$' -v ./compress/flate) > $out 2>&1
 code=$?
 e=$(date +%s.%N)
 rroot=${VERIF_REPLAY_ROOT:-/verif/replays}; export VERIF_REPLAY_ROOT=$rroot
@@ -52,13 +52,13 @@ if [ "$nfail" -gt 0 ]; then
   cat $work/viol.txt
   grep -q '^VIOLATION' $work/viol.txt && status=1
 fi
-printf 'bounded[disttab]: property %s tier %s: explored=%s failures=%s exit=%s %.1fs\n' "$prop" "$tier" "${explored:-0}" "$nfail" "$status" "$(echo "$e - $s" | bc)"
+printf 'bounded[tables]: property %s tier %s: explored=%s failures=%s exit=%s %.1fs\n' "$prop" "$tier" "${explored:-0}" "$nfail" "$status" "$(echo "$e - $s" | bc)"
 [ "$repo" = /repo ] && python3 - "$prop" "$tier" "${explored:-0}" "$nfail" "$(echo "$e - $s" | bc)" <<'PY'
 import json,sys,os
 prop,tier,explored,nfail,wall=sys.argv[1:6]
 p='/verif/evidence/%s.bounded.json'%prop
-json.dump({"property_id":prop,"tier":tier,"level":"bounded","what":"genForDists+setCodes on distance code length vectors and GenerateForHeader+setCodes on code length code vectors (see /verif/bounded/*_test.go for the exact bound)",
+json.dump({"property_id":prop,"tier":tier,"level":"bounded","what":"genForDists+setCodes on distance code length vectors, GenerateForHeader+setCodes on code length code vectors, and the whole dynamic-header table construction (setupDynamicHeader) on random complete codes in the three multi-symbol modes, table lookups compared with canonical decoding (see /verif/bounded/*_test.go for the exact bound)",
  "explored_inputs":int(explored),"failures":int(nfail),"wall_s":float(wall),
- "bound":{"complete_codes_max_symbols":int(os.environ.get("VERIF_BOUNDED_COMPLETE_SYMS","30")),"incomplete_codes_max_symbols":int(os.environ.get("VERIF_BOUNDED_INCOMPLETE_SYMS","4")),"random_vectors":int(os.environ.get("VERIF_BOUNDED_RANDOM","100000"))}},open(p,'w'),indent=1)
+ "bound":{"complete_codes_max_symbols":int(os.environ.get("VERIF_BOUNDED_COMPLETE_SYMS","30")),"incomplete_codes_max_symbols":int(os.environ.get("VERIF_BOUNDED_INCOMPLETE_SYMS","4")),"random_vectors":int(os.environ.get("VERIF_BOUNDED_RANDOM","100000")),"random_headers":int(os.environ.get("VERIF_BOUNDED_HEADERS","10000")),"patterns_per_header":int(os.environ.get("VERIF_BOUNDED_PATTERNS","400"))}},open(p,'w'),indent=1)
 PY
 exit $status
